@@ -71,7 +71,7 @@ pub trait FromMeta: Sized {
         (match *item {
             Meta::Path(_) => Self::from_word(),
             Meta::List(ref value) => {
-                Self::from_list(&NestedMeta::parse_meta_list(value.tokens.clone())?[..])
+                Self::from_list(&NestedMeta::parse_meta_list_of(value)?[..])
             }
             Meta::NameValue(ref value) => Self::from_expr(&value.value),
         })
